@@ -1,8 +1,8 @@
 (* C06 - an embedded ICC profile is returned byte-for-byte, or reported absent or corrupt.
    WebP (VP8X + ICCP) and PNG iCCP (inflate as a stated oracle) are proved here for every profile of any
-   size; the JPEG APP2 any-order reassembly: see DESIGN.md (status). *)
-From Coq Require Import List NArith. From Coq Require Import Strings.Byte.
-From PrismV Require Import IO.IO IO.IOTheory IO.Parse Meta.Meta Meta.MetaProofs Meta.WebpProofs Meta.PngProofs IO.Encode.
+   size, and JPEG APP2 chunks in any order for any payload sizes. *)
+From Coq Require Import List NArith Permutation. From Coq Require Import Strings.Byte.
+From PrismV Require Import IO.IO IO.IOTheory IO.Parse Meta.Meta Meta.MetaProofs Meta.WebpProofs Meta.PngProofs Meta.JpegProofs IO.Encode.
 Import ListNotations.
 
 Theorem C06_webp_profile_byte_for_byte : forall inflate total flags r1 r2 r3 w1 h1 profile rest fuel,
@@ -44,3 +44,19 @@ Theorem C06_png_corrupt_stream : forall inflate w h depth rest crc ancs1 name z 
   = (Ok {| md_format := PNG; md_w := w; md_h := h; md_bits := bN depth; md_icc := IccErr |}, body).
 Proof. exact png_meta_icc_corrupt. Qed.
 Print Assumptions C06_png_corrupt_stream.
+
+(* JPEG: the profile split over n <= 255 APP2 chunks whose sequence numbers are ANY permutation of 1..n,
+   interleaved with any other segments (non-ICC APP2 included) and with the frame header anywhere among
+   them: the profile returned is exactly the payloads concatenated in sequence-number order, whatever
+   their sizes, together with the frame header's fields and no error *)
+Theorem C06_jpeg_any_order : forall inflate (jits : list jitem) (n : nat) fr sos body fuel,
+  let cs := chunks_of jits in
+  1 <= n <= 255 ->
+  Permutation (map cseq cs) (map N.of_nat (seq 1 n)) -> (forall c, In c cs -> ctotal c = N.of_nat n) ->
+  sofs_of jits = [fr] -> Forall jitem_ok jits ->
+  Forall item_ok (map enc jits) -> seg_ok 0xda sos -> length jits < fuel ->
+  fst (run_pure inflate (jpeg_prog fuel) (jpeg_file (map enc jits) sos body))
+  = Ok {| md_format := JPEG; md_w := fst (fst fr); md_h := snd (fst fr); md_bits := snd fr;
+          md_icc := icc_of_buffer (spec cs n) |}.
+Proof. exact jpeg_icc_any_order. Qed.
+Print Assumptions C06_jpeg_any_order.
